@@ -151,8 +151,17 @@ class KeyedList(Generic[ItemType, KeyType], MutableSequence, KeyedBase):  # pyli
         if isinstance(index_or_key, slice):
             raise RuntimeError("Cannot assign multiple values at a time.")
         if isinstance(index_or_key, int):
-            self.__delitem__(index_or_key)
-            self.insert(index_or_key, value)
+            # Validate everything before touching either store, and replace in
+            # place (deleting and re-inserting misplaces negative indices).
+            item, key = self._validate_item(value)
+            old_key = self.key(self._list[index_or_key])
+            if key != old_key and key in self._dict:
+                raise ValueError(
+                    f"Item with key `{repr(key)}` already in `{type_label(self._type)}`."
+                )
+            self._list[index_or_key] = item
+            del self._dict[old_key]
+            self._dict[key] = item
             return
 
         index = self.index_for_key(index_or_key)
@@ -162,8 +171,9 @@ class KeyedList(Generic[ItemType, KeyType], MutableSequence, KeyedBase):  # pyli
         if isinstance(index_or_key, slice):
             raise RuntimeError("Cannot delete multiple values at a time.")
         if isinstance(index_or_key, int):
-            value = self._list.pop(index_or_key)
-            del self._dict[self.key(value)]
+            key = self.key(self._list[index_or_key])
+            del self._list[index_or_key]
+            del self._dict[key]
             return
 
         index = self.index_for_key(index_or_key)
